@@ -31,6 +31,10 @@ type CompBatch struct {
 	// ExtraPerProc adds environment for process p (knob swarm).
 	ExtraPerProc func(p int) []string
 	Assume       []string
+	// ExtraCoverage is merged into the evidence coverage.
+	ExtraCoverage map[string]any
+	// CarryViolations: violations already reported by a companion batch of the same property.
+	CarryViolations int
 }
 
 // ReplayDoc is the replay file of a component simulation.
@@ -193,6 +197,10 @@ func (b *CompBatch) Run() int {
 	for k, v := range merged.Extra {
 		cov[k] = v
 	}
+	for k, v := range b.ExtraCoverage {
+		cov[k] = v
+	}
+	nViol += b.CarryViolations
 	if len(merged.Samples) == 0 {
 		cov["samples"] = []any{"(no case was run)"}
 	}
